@@ -1,7 +1,7 @@
 """C03 - the resolver selects the deepest command named by the leading tokens."""
 import ast
 
-from ..loader import walk_no_nested, norm, is_self_attr
+from ..loader import ClassInfo, walk_no_nested, norm, is_self_attr
 from ..cfg import guarded_by
 from .. import q
 
@@ -189,6 +189,7 @@ def run(ctx):
     app_add = ctx.func("ConsoleApplication.add_command")
     sub_add = ctx.func("Command.add_sub_command")
     tables = {}
+    own_tests = []
     for fn in (app_add, sub_add):
         cfg = ctx.cfg(fn)
         tab = {}
@@ -201,6 +202,11 @@ def run(ctx):
             for e in cfg.nodes:
                 if e.kind in ("T", "F") and cfg.dominates(e.id, cn.id) and isinstance(e.ast, ast.Call) and isinstance(e.ast.func, ast.Attribute):
                     conds.append((e.ast.func.attr, e.kind == "T"))
+                    rcv = e.ast.func.value
+                    while isinstance(rcv, (ast.Attribute, ast.Call)):
+                        rcv = rcv.value if isinstance(rcv, ast.Attribute) else rcv.func
+                    if isinstance(rcv, ast.Name) and rcv.id == "self" and e.ast.func.attr in ("is_enabled", "is_default", "is_anonymous"):
+                        own_tests.append((fn, e.ast))
             tab[role] = tuple(sorted(conds))
         tables[fn.short] = tab
     want = {"all": (("is_enabled", True),), "default": (("is_default", True), ("is_enabled", True)), "named": (("is_anonymous", False), ("is_enabled", True))}
@@ -212,6 +218,13 @@ def run(ctx):
                 r.ok("%s: %s collection under %s" % (fn.short, role, got))
             else:
                 r.fail(fn, fn.node, "%s collection under %s" % (role, got), "%s registers into the %s collection under %s, expected %s" % (fn.short, role, got, want[role]))
+    seen_own = set()
+    for fn, e in own_tests:
+        if norm(e) in seen_own:
+            continue
+        seen_own.add(norm(e))
+        r.fail(fn, e, norm(e) + " asks the parent", "%s decides the registration of the command being added by asking `%s`, which is the configuration of the "
+               "object it is added TO: a disabled (default / anonymous) sub-command is registered according to its parent's marker" % (fn.short, norm(e)))
 
     # ---------------------------------------------------------------- R7
     r = ctx.rule("C03-R7", "SENTINEL", "a scan that draws tokens with next(it, None) tests the sentinel it asked for, "
@@ -306,6 +319,49 @@ def run(ctx):
                    "its parse error is hidden and the parent's handler runs")
         else:
             r.ok("%s: own result only when no default sub-command exists" % pds.short)
+
+    # ---------------------------------------------------------------- R11
+    r = ctx.rule("C03-R11", "EXC", "'first parsable default' is decided by the cannot-parse error alone: the handler around the trial parse "
+                 "in ResolveResult catches that class (or subclasses) and nothing else - an unknown option still escapes instead of "
+                 "silently moving the selection to another default", reference=1)
+    rr = ctx.cls("clikit.resolver.resolve_result.ResolveResult")
+    cannot = ctx.cls("clikit.api.args.exceptions.CannotParseArgsException")
+    trial = []
+    for m in rr.methods.values():
+        for c in q.calls(m):
+            if isinstance(c.func, ast.Attribute) and c.func.attr == "parse":
+                trial.append((m, c))
+    ctx.require(trial, "ResolveResult no longer parses the raw args of its command")
+    for m, c in trial:
+        cfg = ctx.cfg(m)
+        caught_all = []
+        for cn in cfg.nodes_of(c):
+            for s_, k in cfg.succ[cn.id]:
+                sn = cfg.nodes[s_]
+                if k == "e" and sn.kind == "except":
+                    caught_all.append((sn.ast, cfg._handler_classes(sn.ast)))
+        if not caught_all:
+            r.fail(m, c, norm(c) + " unprotected", "the trial parse is not protected: a command line that the first default cannot parse raises instead of trying the next default")
+            continue
+        ok_ = True
+        has = False
+        for h, classes in caught_all:
+            if classes == []:
+                r.fail(m, h, "bare except around trial parse", "the trial parse swallows every exception")
+                ok_ = False
+                continue
+            for k_ in classes:
+                if isinstance(k_, ClassInfo) and cannot in k_.mro:
+                    has = True
+                else:
+                    nm = getattr(k_, "name", None) or getattr(k_, "__name__", None) or "?"
+                    r.fail(m, h, "trial parse also catches " + nm, "ResolveResult treats %s as 'this default cannot parse the line' too: adding an option that only a later "
+                           "default knows silently changes the selected command instead of raising" % nm)
+                    ok_ = False
+        if not has:
+            r.fail(m, c, norm(c) + " cannot-parse not caught", "the cannot-parse error is not caught around the trial parse")
+        elif ok_:
+            r.ok("%s: %s under except %s only" % (m.short, norm(c), cannot.name))
     return ctx.results
 
 
